@@ -35,6 +35,13 @@ type GenOpts struct {
 	// PreferObjectDup makes duplicated selections favour object fields (whose
 	// sub-selections then have to be merged).
 	PreferObjectDup bool
+	// PForeign adds, inside Node and Leaf selection sets, spreads of fragments
+	// typed on the other of the two object types that select only fields both
+	// types have (id, color, __typename). One named fragment is then shared by
+	// objects of two types. GraphQL proper would not let such a fragment apply;
+	// thunder validates a fragment inside an object against that object's type
+	// and applies it. Doc.Foreign counts them; see EvalForeign.
+	PForeign float64
 }
 
 func DefaultGenOpts() GenOpts {
@@ -52,6 +59,7 @@ type generator struct {
 	nVar    int
 	nFrag   int
 	done    map[string][]*FragDef // completed fragments by type
+	common  []*FragDef            // fragments selecting only fields Node and Leaf share
 }
 
 // Generate produces one query document over the zoo.
@@ -270,6 +278,41 @@ func (g *generator) namedFrag(typ string, depth int) *Frag {
 	return &Frag{Named: fd.Name, On: typ, Set: fd.Set, Dirs: g.dirs()}
 }
 
+// commonFrag returns a fragment (named or inline) that selects only fields
+// Node and Leaf share; its type condition is either of the two.
+func (g *generator) commonFrag(typ string) *Frag {
+	on := []string{"Node", "Leaf"}[g.r.Intn(2)]
+	body := func() *SelSet {
+		s := &SelSet{}
+		names := []string{"id", "color", "__typename"}
+		g.r.Shuffle(len(names), func(i, j int) { names[i], names[j] = names[j], names[i] })
+		for _, n := range names[:1+g.r.Intn(3)] {
+			f := &Field{Name: n}
+			f.Alias = g.alias(n, nil)
+			s.Items = append(s.Items, SelItem{Field: f})
+		}
+		return s
+	}
+	var fr *Frag
+	switch {
+	case g.r.Intn(4) == 0:
+		fr = &Frag{On: on, Set: body()}
+	case len(g.common) > 0 && g.r.Intn(3) != 0:
+		fd := g.common[g.r.Intn(len(g.common))]
+		fr = &Frag{Named: fd.Name, On: fd.On, Set: fd.Set}
+	default:
+		g.nFrag++
+		fd := &FragDef{Name: fmt.Sprintf("C%d", g.nFrag), On: on, Set: body()}
+		g.doc.Frags = append(g.doc.Frags, fd)
+		g.common = append(g.common, fd)
+		fr = &Frag{Named: fd.Name, On: fd.On, Set: fd.Set}
+	}
+	if fr.On != typ {
+		g.doc.Foreign++
+	}
+	return fr
+}
+
 func (g *generator) set(typ string, depth int) *SelSet {
 	t := g.sd.Types[typ]
 	s := &SelSet{}
@@ -322,6 +365,8 @@ func (g *generator) set(typ string, depth int) *SelSet {
 	var fields []*Field
 	for i := 0; i < n; i++ {
 		switch {
+		case (typ == "Node" || typ == "Leaf") && g.p(g.o.PForeign):
+			s.Items = append(s.Items, SelItem{Frag: g.commonFrag(typ)})
 		case depth > 1 && g.p(g.o.PInline):
 			fr := &Frag{On: typ, Set: g.set(typ, depth-1), Dirs: g.dirs()}
 			s.Items = append(s.Items, SelItem{Frag: fr})
